@@ -245,6 +245,9 @@ class Pipeline(Instance):
         e.witness("finalized")
         if self._last_sched.preempts:
             e.witness("preempted")
+        for fn in ("find_split_by_cost", "split_segment_at_position", "find_group_with_one_kmer"):
+            if any(k_.endswith(fn) for k_ in e.funcs_used):
+                e.witness("reached:" + fn)
         if self.sym or self.edits:
             self.pin_symbols(e)
             e.inputs["samples"] = [[sn.decode(), [[cn.decode(), [e.eval_concrete(x) for x in d]] for cn, d in cs]] for sn, cs in self.sym_data(e)]
@@ -296,12 +299,19 @@ class Pipeline(Instance):
         return f"pipe:panic:{ex.where.split('::')[-1]}:{ex.kind}", str(ex)
 
     def confirm(self, viol, outs):
-        return any(("panic" in o or "crash" in o or o.get("ok") is False or o.get("timeout")) for o in outs.values())
+        for o in outs.values():
+            if "panic" in o or "crash" in o:
+                return True
+            if o.get("timeout") and self.threads > 1 and str(o.get("why", "")).startswith("1 worker"):
+                continue                # the one-worker reference run itself timed out (loaded machine): says nothing about this counterexample
+            if o.get("ok") is False or o.get("timeout"):
+                return True
+        return False
 
     def native(self, inp):
         case = {"threads": self.threads, "k": self.k, "splitters": [str(kmer_canon(w)) for w in self.splitters], "driver": self.driver, "qcap": self.qcap,
                 "cfg": {n: (v.v if hasattr(v, "v") else v) for n, v in self.cfg.items()},
-                "samples": [[sn.decode(), [[cn.decode(), list(d)] for cn, d in cs]] for sn, cs in self.samples], "runs": {"determinism": 12, "fault": 0}.get(self.view, 2), "indep": self.view == "format"}
+                "samples": [[sn.decode(), [[cn.decode(), list(d)] for cn, d in cs]] for sn, cs in self.samples], "runs": {"determinism": 12, "fault": 0}.get(self.view, 2), "indep": self.view == "format", "watchdog_s": 90}
         if inp.get("samples"):
             case["samples"] = inp["samples"]
         if self.view == "fault":
@@ -324,6 +334,13 @@ THREE = [(b"s1", [(b"c1", C1), (b"c2", C3)]), (b"s2", [(b"c1", C2), (b"c2", C3)]
 
 def _rc(c):
     return [(3 - b) if b < 4 else b for b in reversed(c)]
+
+
+# a contig with THREE splitter k-mers (each canonical value occurs once), so that a sample which loses the middle one has a segment
+# spanning a missing splitter whose two neighbour groups exist: the barrier-time split / whole-assignment logic runs
+C4 = [2, 1, 0, 3, 1, 0, 0, 3, 2, 0, 3, 1, 2, 0, 2, 1, 1, 2, 3, 2, 2, 0, 0, 0, 0, 0, 0]
+SPL3 = [(0, 0, 3), (2, 0, 2), (2, 2, 0)]
+MID = [(b"s1", [(b"c1", C4)]), (b"s2", [(b"c1", C4)])]
 
 
 # shared groups, a whole-contig reverse complement, an IUPAC code, an N-run, a contig of exactly k bases, one shorter than k, identical contigs
